@@ -289,7 +289,11 @@ def scenarios(max_structs, levels=LEVELS, structs=STRUCTS):
 def run_scenario(scenario, annotated, strategy, scratch, tag, extra=(), data_type="nanopore", pre_hook=None, keep=False):
     """returns (rc, out dir, world, paths, workdir); caller removes workdir"""
     from vlib import syn, run
-    w = make_world(scenario, annotated)
+    w = make_world(scenario, annotated if annotated != 5 else 1)
+    if annotated == 5:
+        # reference sequences whose names differ in letter case and in leading zeros only (contigs of one assembly): ctg2, ctg02, Ctg2
+        import json
+        w = json.loads(json.dumps(w).replace('"chr1"', '"ctg2"').replace('"chr2"', '"ctg02"').replace('"chr3"', '"Ctg2"'))
     d = os.path.join(scratch, "mix_" + tag)
     shutil.rmtree(d, ignore_errors=True)
     paths = syn.materialise(w, d, gtf=bool(annotated))
